@@ -34,7 +34,7 @@ CHECKS = {
  "C17": dict(
    engine="E2-sandbox-io",
    level=("exploration",
-     "Seeded histories of 3-12 writer/CLI operations in one tmpfs sandbox (each history in a forked process; a file written by operation k is an existing target for operation k+1) plus a seeded walk over the whole configuration matrix (11 sinks x exists x answer class x warnings x str/Path). A PEP 578 audit hook records every open/rename/remove/truncate of any library in one ordered log with the prompts and the 'exists, overwrite?' records; the user peer answers y/n/empty/Y/yes/'y '/' y'/text/EOF/Ctrl-C or runs out of answers; ENOSPC/EACCES is injected into confirmed writes. Oracle per pre-existing file: no mutating event before a 'y' attributed to it (bytes and inode unchanged otherwise), replaced by a valid output when confirmed or warnings disabled, no prompt when disabled, no unexpected new file. Sampling, not proof.",
+     "Seeded histories of 3-12 writer/CLI operations in one tmpfs sandbox (each history in a forked process; a file written by operation k is an existing target for operation k+1) plus a seeded walk over the whole configuration matrix (11 sinks x exists x answer class x warnings x str/Path). A PEP 578 audit hook records every open/rename/remove/truncate of any library in one ordered log with the prompts and the 'exists, overwrite?' records; the user peer answers y/n/empty/Y/yes/'y '/' y'/text/EOF/Ctrl-C or runs out of answers; ENOSPC/EACCES is injected into confirmed writes; 15% of the histories run with CAP_DAC_OVERRIDE dropped (an ordinary user, write-protected targets); targets may be empty, symlinks, behind a symlinked directory, or arrive with the directory times restored. Oracle per pre-existing file: no mutating event before a 'y' attributed to it (bytes and inode unchanged otherwise), replaced by a valid output when confirmed or warnings disabled, no prompt when disabled, no unexpected new file. Sampling, not proof.",
      "4.3"),
    note="Trusted: the audit hook sees every Python-level file access (C-level access bypassing it would be invisible; the writers under test do none), tmpfs, in-process CLI invocation through the real parser + merge_config + main_*.run with SETTINGS restored between operations.",
    technique="deterministic simulation: histories of writer/CLI operations against a monitored real disk and a scripted faulty user peer, with disk-fault injection through the audit hook"),
@@ -48,7 +48,7 @@ CHECKS = {
  "C19": dict(
    engine="E1-simfs-vproc",
    level=("fault_enumeration",
-     "Crash-point sweep: for 15 canonical single-process workloads (first init on 3 home states, upgrade, reset all/subset, set, hard/soft merge) x write chunk sizes, every file-system yield point is enumerated as a kill point, an interrupt-before, an interrupt-after and (for writes) a kill inside the write, each followed by a fault-free start; plus all <=2-preemption schedules of two racing starts; plus seeded random search over 1-3 concurrent processes x 1-3 epochs x scheduler policies x kill/interrupt/short-write/stall/IO-error faults. Invariants I1 (every instant: absent or complete JSON), I2 (next start succeeds with all default keys), I3 (no unfaulted process fails). Sampling of interleavings, not proof.",
+     "Crash-point sweep: for 15 canonical single-process workloads (first init on 3 home states, upgrade, reset all/subset, set, hard/soft merge) x write chunk sizes, every file-system yield point is enumerated as a kill point, an interrupt-before, an interrupt-after and (for writes) a kill inside the write, each followed by a fault-free start; plus all <=2-preemption schedules of two racing starts; plus seeded random search over 1-3 concurrent processes x 1-3 epochs x scheduler policies x kill/interrupt/short-write/stall/IO-error faults (ENOSPC EIO EACCES EBUSY EXDEV EROFS EPERM; refused publishing rename followed by a kill), processes under other locale encodings, non-ASCII and non-finite values. Invariants I1 (every instant: absent or complete, strict JSON), I2 (next start succeeds with all default keys), I3 (no unfaulted process fails). Sampling of interleavings, not proof.",
      "4.1"),
    note="Trusted: SimFS's POSIX model (O_TRUNC at open, per-description offsets, atomic rename), kill = every completed op persists (no power loss), pre-emption only at file-system operations, CPython's real buffered/text I/O layers on top of the simulated raw file.",
    technique="deterministic simulation: real settings.py/main_config.py as virtual processes on an in-memory disk under a seeded scheduler with crash-point enumeration and fault injection"),
